@@ -1,4 +1,5 @@
 import RsslVerif.Gen.HlslGenTables
+import RsslVerif.Gen.HlslIntrinsicTables
 /-!
 # `Model.Ir` — the executable, resource-free scalar subset of `rssl_ir`
 
@@ -10,7 +11,7 @@ constructors, `SizeOf`, intrinsic functions, method calls, `discard`, 64-bit and
 strings, enums.
 -/
 namespace RsslVerif.Model.Ir
-open RsslVerif.Gen.HlslGenTables
+open RsslVerif.Gen.HlslGenTables RsslVerif.Gen.HlslIntrinsicTables
 
 /-- scalar types of the subset (`ir::ScalarType` + void); `lit`/`flit` = IntLiteral / FloatLiteral -/
 inductive Ty where
@@ -51,6 +52,8 @@ inductive Expr where
   | seq (es : Exprs)
   | cast (ty : Ty) (e : Expr)
   | call (f : Nat) (args : Exprs)      -- Call(id, FreeFunction, args) to a user function
+  | intr (i : Intrinsic) (ty ret : Ty) (args : Exprs)
+      -- Call(id, FreeFunction, args) where `id` is an intrinsic whose resolved signature is (ty, …, ty) → ret
   deriving Repr, Inhabited
 inductive Exprs where
   | nil
